@@ -4,7 +4,7 @@ from trkgen import *
 ID = "C04"
 THEOREM_MODULE = "SimVerif.Props.C04"
 NONTRIVIAL_FLAGS = {"multi-scene-store", "multi-scene-batch", "compared-nonempty", "competition", "continuation"}
-KINDS = ["sort", "bsort"]
+KINDS = ["sort", "bsort", "visual", "bvisual", "bsort", "bvisual"]
 RULE = ("multi-scene histories (2..3 scenes whose objects share one image region, spatio-temporal constraints configured in 40% of the cases) run on the real tracker once interleaved and once projected onto each single scene "
         "(separate tracker instances in one executor); for every scene the record streams of the two runs are compared up to renaming of ids by first appearance (`trk cmp`), and every call of both runs is compared with the model and its choice validated; "
         "non-trivial = a call made while tracks of several scenes are stored / a multi-scene batch / a non-empty comparison / competing detections; distinct = distinct request line")
